@@ -61,6 +61,12 @@ int main(void){
   uk_assert(l1 == l2, "C09: normalize(resolve(normalize(R),B)) equals normalize(resolve(R,B)) (length)");
   if (l1 == l2) for (i = 0; i < l1; i++) uk_assert(g1[i] == g2[i], "C09: normalize(resolve(normalize(R),B)) equals normalize(resolve(R,B))");
   uk_assert(U(uriEqualsUri)(&T1, &T2) == URI_TRUE, "C09: both targets compare equal");
+  { int teq = (l1 == l2); if (teq) for (i = 0; i < l1; i++) if (g1[i] != g2[i]){ teq = 0; break; }
+    uk_assert((U(uriEqualsUri)(&T1, &T2) == URI_TRUE) == teq, "C11: URIs produced by resolution and normalisation are equal exactly when their recomposed texts are identical");
+    uk_assert(U(uriEqualsUri)(&T1, &T2) == U(uriEqualsUri)(&T2, &T1), "C11: equality of produced URIs is symmetric"); }
+#ifdef P_C07
+  chk_reparse_stable(&T1); chk_reparse_stable(&T2);
+#endif
   if (rs.sch_a >= 0) uk_cover("ref-absolute"); else if (rs.has_auth) uk_cover("ref-network-path"); else if (rs.abs_path) uk_cover("ref-absolute-path"); else uk_cover("ref-relative-path");
   U(uriFreeUriMembersMm)(&T1, &mm); U(uriFreeUriMembersMm)(&T2, &mm); U(uriFreeUriMembersMm)(&R1, &mm); U(uriFreeUriMembersMm)(&R2, &mm); U(uriFreeUriMembersMm)(&B, &mm);
   uk_assert(uk_live() == 0, "C13: all blocks returned");
